@@ -25,6 +25,7 @@ def main():
     ap.add_argument("seed")
     ap.add_argument("--props")
     ap.add_argument("--seeds", default="0,1")
+    ap.add_argument("--no-restore", action="store_true", help="do not re-run the checks on /repo afterwards (private copies of /verif)")
     a = ap.parse_args()
     sd = Path(a.seed).resolve()
     meta = json.load(open(sd / "meta.json"))
@@ -61,8 +62,9 @@ def main():
         sh(["git", "-C", "/repo", "worktree", "remove", "--force", wt])
         shutil.rmtree(wt, ignore_errors=True)
         sh(["git", "-C", "/repo", "worktree", "prune"])
-        for p in props:       # leave /verif describing the unchanged tree
-            sh([str(VERIF / "check"), p], cwd=str(VERIF))
+        if not a.no_restore:
+            for p in props:       # leave /verif describing the unchanged tree
+                sh([str(VERIF / "check"), p], cwd=str(VERIF))
     (sd / "try.json").write_text(json.dumps(results, indent=1))
     return 0
 
